@@ -2274,6 +2274,7 @@ class QuicConnection:
             )
 
         # process data
+        was_finished = stream.receiver.is_finished
         try:
             event = stream.receiver.handle_frame(frame)
         except FinalSizeError as exc:
@@ -2282,7 +2283,9 @@ class QuicConnection:
                 frame_type=frame_type,
                 reason_phrase=str(exc),
             )
-        if event is not None:
+        if event is not None and not (was_finished and not event.data):
+            # the end of the stream is only signalled once, even if the frame
+            # carrying the FIN bit is received several times
             self._events.append(event)
         self._local_max_data.used += newly_received
 
